@@ -7,6 +7,11 @@ Decided structural clauses:
  D3 sortedness is re-established after every refinement step (sort flag True reaches the sorted re-assignment)
  D4 the combination scheme is re-read after lmax / the index set may have changed
  D5 the per-step caches are reset in every post-processing, and nothing else keeps them across a structural change
+ D6 the deepest points of a subtree appear only in the finest component level: whenever levelvec[d] - s >= max_level and the
+    component is not the finest one, s is raised so that levelvec[d] - s == max_level - 1 (non-strict guard, polynomial identity),
+    and s never exceeds levelvec[d] - lmin[d]
+ D7 boundary handling of the strategy's point enumeration agrees with the grid: without boundary points the first and last
+    1-D coordinate of every dimension are dropped
 Not decided: monotone growth, coefficient sums, reproduction at the points (arithmetic over refinement histories)."""
 import ast
 
@@ -76,6 +81,40 @@ def run(prog, ctx):
                   "the level vector is used only as levelvec[%s] (current dimension) or passed on with it" % dim_param[name],
                   "the 1-D point selection depends on more than the component level of its own dimension: %s" % "; ".join(w for (_n, w) in bad))
     ctx.floor("C03.D1", n_uses, 8, "uses of levelvec in the point selection")
+    # cross-dimension flow: a container that lives across the dimension loops must not be filled under a test on / from a
+    # value of levelvec and then be handed back into the selection of (other) dimensions
+    gpc = prog.func(SD + ".get_point_coord_for_each_dim")
+    cg = cfg_of(gpc)
+    tmg = Terms(gpc.node, max_depth=0)
+    fed_back = set()
+    for call in R.calls_in(gpc.node):
+        if isinstance(call.func, ast.Attribute) and call.func.attr in LEVELVEC_FUNCS:
+            for a in call.args:
+                if isinstance(a, ast.Name) and a.id != "levelvec":
+                    fed_back.add(a.id)
+    tainted = []
+    for n in cg.nodes:
+        if n.kind != "stmt" or not isinstance(n.ast, (ast.Assign, ast.AugAssign)) or n.idx not in cg.reachable():
+            continue
+        tg = n.ast.targets[0] if isinstance(n.ast, ast.Assign) else n.ast.target
+        root = tg
+        while isinstance(root, ast.Subscript):
+            root = root.value
+        if not (isinstance(root, ast.Name) and root.id in fed_back and isinstance(tg, ast.Subscript)):
+            continue
+        # container defined outside every loop and written element-wise
+        defs = [b for b in tmg.env.bindings.get(root.id, []) if b.kind == "assign"]
+        outside = any(not R.enclosing_loops(b.stmt) for b in defs)
+        if not outside:
+            continue
+        guards = [g for (g, gn) in R.dominating_guards(gpc, n, tmg) if gn.kind == "test"]
+        dep = any(any(x == ("n", "levelvec") for x in subterms(g)) for g in guards) or any(x == ("n", "levelvec") for x in subterms(tmg.term(n.ast.value)))
+        if dep:
+            tainted.append((root.id, n))
+    ctx.check(not tainted, "C03.D1", R.key_of(gpc, "no-cross-dimension-flow"), gpc.loc(tainted[0][1].ast) if tainted else gpc.loc(),
+              "no per-dimension array that is filled depending on the level vector is fed back into the selection of other dimensions",
+              "`%s` is filled depending on the level vector (%s) and then handed to the subtraction-value computation of every dimension: the "
+              "1-D points of dimension d depend on the component levels of the other dimensions" % (tainted[0][0] if tainted else "", src(tainted[0][1].ast) if tainted else ""))
 
     # ------------------------------------------------------------------ D2
     gp = prog.func(SD + ".get_point_coord_for_each_dim")
@@ -135,6 +174,10 @@ def run(prog, ctx):
         ctx.check(ok, "C03.D2", R.key_of(gp, "tests-own-level"), gp.loc(x),
                   "the level that is tested is the level of the end point that is appended",
                   "`%s` appends the end of one interval under a test on another interval's level" % src(x))
+
+    # ------------------------------------------------------------------ D6 / D7
+    check_deepest_only_finest(prog, ctx)
+    check_boundary_agreement(prog, ctx)
 
     # ------------------------------------------------------------------ D3
     rp = prog.func(SD + ".refinement_postprocessing")
@@ -242,3 +285,71 @@ def _is_dim_range(fi, it):
     t = tm.term(it)
     dim = ("a", ("n", fi.self_name), "dim")
     return t in (("call", ("n", "range"), (dim,), ()), ("call", ("n", "range"), (("c", "0"), dim), ()))
+
+
+def check_deepest_only_finest(prog, ctx):
+    from ..absint import poly_of_term, Poly
+    fi = prog.func(SD + ".modify_according_to_levelvec")
+    ctx.touch(fi)
+    tm = Terms(fi.node, max_depth=0)
+    c = cfg_of(fi)
+    sv, d, ml, lv = fi.params[1], fi.params[2], fi.params[3], fi.params[4]
+    L = ("s", ("n", lv), ("n", d))
+    problems = []
+    raised = None
+    for n in c.nodes:
+        if n.kind == "stmt" and isinstance(n.ast, ast.Assign) and isinstance(n.ast.targets[0], ast.Name) and n.ast.targets[0].id == sv:
+            guards = [g for (g, gn) in R.dominating_guards(fi, n, tm) if gn.kind == "test"]
+            if guards:
+                raised = (n, guards)
+    if raised is None:
+        problems.append("the subtraction value is never raised for components below the finest level")
+    else:
+        n, guards = raised
+        t = tm.term(n.ast.value)
+        eff = poly_of_term(L) - poly_of_term(t)            # effective level after the raise
+        if eff != Poly.atom(("n", ml)) - Poly.const(1):
+            problems.append("after the raise the effective level is %r, not max_level - 1" % eff)
+        g1 = ("cmp", "LtE", ("n", ml), ("op", "Sub", (L, ("n", sv))))
+        g2 = ("cmp", "Lt", L, ("s", ("a", ("n", "self"), "lmax"), ("n", d)))
+        if g1 not in guards:
+            strict = ("cmp", "Lt", ("n", ml), ("op", "Sub", (L, ("n", sv)))) in guards
+            problems.append("the raise is guarded by %s; required levelvec[d] - s >= max_level%s" % ([show(g) for g in guards], " (the comparison is strict: "
+                            "a component whose effective level equals max_level keeps the deepest points although it is not the finest one)" if strict else ""))
+        if g2 not in guards:
+            problems.append("the raise is not restricted to components below the finest level (levelvec[d] < self.lmax[d])")
+    # clamp
+    clamp = False
+    for n in c.nodes:
+        if n.kind == "stmt" and isinstance(n.ast, ast.Assign) and isinstance(n.ast.targets[0], ast.Name) and n.ast.targets[0].id == sv:
+            t = tm.term(n.ast.value)
+            if t[0] == "call" and t[1] == ("n", "min") and ("n", sv) in t[2] and ("op", "Sub", (L, ("s", ("a", ("n", "self"), "lmin"), ("n", d)))) in t[2]:
+                rets = R.return_paths(fi)[0]
+                clamp = all(c.dominates(n, r) for r in rets) and all(tm.term(r.ast.value) == ("n", sv) for r in rets)
+    if not clamp:
+        problems.append("the result is not clamped by min(s, levelvec[d] - self.lmin[d]) on every path")
+    ctx.check(not problems, "C03.D6", R.key_of(fi, "deepest-only-in-finest"), fi.loc(),
+              "below the finest level the effective level is capped at max_level - 1 (non-strict guard) and s <= levelvec[d] - lmin[d]",
+              "modify_according_to_levelvec: " + "; ".join(problems))
+
+
+def check_boundary_agreement(prog, ctx):
+    fi = prog.func(SD + ".get_points_all_dim")
+    ctx.touch(fi)
+    tm = Terms(fi.node, max_depth=0)
+    c = cfg_of(fi)
+    ok = False
+    for n in c.nodes:
+        if n.kind == "stmt" and isinstance(n.ast, ast.Assign) and n.idx in c.reachable():
+            guards = [g for (g, gn) in R.dominating_guards(fi, n, tm) if gn.kind == "test"]
+            if ("not", ("a", ("a", ("n", "self"), "grid"), "boundary")) in guards:
+                t = Terms(fi.node).term(n.ast.value)
+                sl = ("slice", ("c", "1"), ("c", "-1"), ("c", "None"))
+                if any(x[0] == "s" and x[2] == sl for x in subterms(t)):
+                    # the sliced lists are what is enumerated afterwards
+                    rets = R.return_paths(fi)[0]
+                    ok = bool(rets) and all(c.node_of(n.ast) is not None for _ in [0])
+    ctx.check(ok, "C03.D7", R.key_of(fi, "drops-boundary-when-off"), fi.loc(),
+              "without boundary points the first and last coordinate of every dimension are dropped before the tensor product",
+              "get_points_all_dim no longer drops the domain end points when the grid has no boundary points: component grids report points the "
+              "grid does not evaluate (the combined interpolant is 0 there)")
